@@ -110,6 +110,7 @@ class Recorder:
         self.identities = []         # (node id, id(protocol), id(provider)) at initialize
         self.own_pos = []
         self.commands = {}
+        self.hard_cap = scn.get("hardCap", HARD_CAP)   # deliberately long runs raise it in the scenario
 
     # -- protocol side ---------------------------------------------------------------------
     def on_callback(self, proto, kind, key, pos=None):
@@ -119,8 +120,8 @@ class Recorder:
         if pos is not None:
             entry.append(v3bits(pos))
         self.trace.append(entry)
-        if len(self.trace) > HARD_CAP:
-            raise Runaway(f"more than {HARD_CAP} observations")
+        if len(self.trace) > self.hard_cap:
+            raise Runaway(f"more than {self.hard_cap} observations")
         if pos is not None and self.sim is not None:
             # the node's own position at the moment its telemetry is handled (C12)
             try:
@@ -234,8 +235,8 @@ def _hooks_for(rec, label, sampler):
 
     def after_simulation_step(self, iteration, timestamp):
         rec.trace.append(["after", label, iteration, to_ticks(timestamp)])
-        if len(rec.trace) > HARD_CAP:
-            raise Runaway(f"more than {HARD_CAP} observations")
+        if len(rec.trace) > rec.hard_cap:
+            raise Runaway(f"more than {rec.hard_cap} observations")
         if sampler:
             rec.sample_positions()
         return super(holder["cls"], self).after_simulation_step(iteration, timestamp)
